@@ -116,22 +116,22 @@ __CPROVER_assigns(fd->u.index, st->u.poll.num_regd_fds, v_L.u.index,
 		  __CPROVER_object_whole(v_pfds), __CPROVER_object_whole(v_fds))
 /* add */
 __CPROVER_ensures(IMPLIES(OLD_IDX == -1 && fd->wanted_bands != 0,
-	NREG == OLD_N + 1 && SLOT_IS(OLD_N, fd)))	/* [C02] a descriptor that wants a band gets a slot with its fd and the mask of its wanted bands */
+	NREG == OLD_N + 1 && SLOT_IS(OLD_N, fd)))	/* [C02,C03,C15] a descriptor that wants a band gets a slot with its fd and the mask of its wanted bands */
 /* remove */
 __CPROVER_ensures(IMPLIES(OLD_IDX != -1 && fd->wanted_bands == 0,
-	fd->u.index == -1 && NREG == OLD_N - 1))	/* [C01,C02] a descriptor that wants nothing holds no slot */
+	fd->u.index == -1 && NREG == OLD_N - 1))	/* [C01,C02,C03,C15,C18] a descriptor that wants nothing holds no slot (whichever slot it had, slot 0 included) */
 __CPROVER_ensures(IMPLIES(OLD_IDX != -1 && fd->wanted_bands == 0 && verif_last != -1,
-	SLOT_IS(OLD_IDX, &v_L)))	/* [C01,C02] the last slot is moved into the hole, intact (fd, mask, back index), so the removed descriptor is in no live slot */
+	SLOT_IS(OLD_IDX, &v_L)))	/* [C01,C02,C03,C15,C18] the last slot is moved into the hole, intact (fd, mask, back index), so the removed descriptor is in no live slot */
 /* modify */
 __CPROVER_ensures(IMPLIES(OLD_IDX != -1 && fd->wanted_bands != 0,
-	NREG == OLD_N && SLOT_IS(OLD_IDX, fd)))	/* [C02] mask follows the wanted bands */
+	NREG == OLD_N && SLOT_IS(OLD_IDX, fd)))	/* [C02,C03,C15] mask follows the wanted bands */
 /* nothing to do */
 __CPROVER_ensures(IMPLIES(OLD_IDX == -1 && fd->wanted_bands == 0,
 	fd->u.index == -1 && NREG == OLD_N))	/* [C18] no slot is touched for a descriptor that has none and wants none */
 /* every other slot is as it was (ghost slot k; and the last slot unless it was moved) */
-__CPROVER_ensures(IMPLIES(verif_k != -1, SLOT_IS(verif_k, &v_K)))	/* [C02,C05] other descriptors' slots are unaffected */
+__CPROVER_ensures(IMPLIES(verif_k != -1, SLOT_IS(verif_k, &v_K)))	/* [C02,C03,C15,C18] other descriptors' slots are unaffected */
 __CPROVER_ensures(IMPLIES(verif_last != -1 && !(OLD_IDX != -1 && fd->wanted_bands == 0),
-	SLOT_IS(verif_last, &v_L)))	/* [C02] */
+	SLOT_IS(verif_last, &v_L)))	/* [C02,C03,C15,C18] */
 __CPROVER_ensures(fd->wanted_bands == __CPROVER_old(fd->wanted_bands) && fd->fd == __CPROVER_old(fd->fd))
 ;
 
@@ -248,7 +248,7 @@ static void check_wait(int r, int final_ret, int final_err)
 {
 	int i;
 
-	__CPROVER_assert(v_state.time_valid == 0, "[C04,C15] the cached clock is invalidated after every wait, also an interrupted one");
+	__CPROVER_assert(v_state.time_valid == 0, "[C04,C15,C05,C07] the cached clock is invalidated after every wait, also an interrupted one (otherwise a signal keeps due timers from running and the loop blocks again while something is due)");
 	__CPROVER_assert(r == 1, "[C04,C15] timers are re-evaluated after every wait (also after EINTR)");
 	__CPROVER_assert(g_mr_bad == 0, "[C03] only registered descriptors are made ready, one band at a time, on the caller's batch");
 	for (i = 0; i < NP; i++) {
